@@ -686,6 +686,10 @@ pub fn model(c: &Call) -> Expect {
     if c.method && matches!(c.this, V::Null) {
         return unspec("null receiver (dispatcher reads it as a free call)", "null-receiver");
     }
+    if c.method && matches!(&c.this, V::Map(m) if m.contains_key(c.func)) {
+        // `m.size(..)` with a field named `size`: the field wins (C12) and what calling its value means is not this property's business
+        return unspec("the receiver is a map with a field named like the method", "field-shadows-method");
+    }
     if c.func == "size" {
         let (x, rest): (&V, &[V]) = if c.method {
             (&c.this, &c.args[..])
